@@ -387,12 +387,22 @@ def _serve_all(ctx: Ctx, drv: LeanDriver, mon: Monitor, get_routes: list[dict], 
             nontrivial = bool(w.inv)
             for route in get_routes:
                 hname = route["module"] + "." + route["func"]
+                takes_inv = any(k in route["path"] for k in ("{invocation_id", "{call_id_key")) or "call_id_key" in qnames[route["func"]]
+                plan = []
                 for mode in (*MODES, "full"):
                     if mode == "full" and len(qnames[route["func"]]) < 2:
                         continue        # nothing to combine
                     for v in range(variants + 1 if mode == "full" else variants if mode != "existing" else variants + extra_existing):
+                        plan.append((mode, v, None))
+                # every invocation with an unusual payload (big / medium inline arguments) is asked for by every route that names one
+                for sp in (getattr(w, "special", []) if takes_inv else []):
+                    plan.append(("existing", f"special-{w.inv.index(sp)}", sp))
+                for mode, v, forced in plan:
+                    if True:
                         seed = f"{ctx.seed}:{fam}:{route['path']}:{mode}:{v}"
+                        w.force_inv = forced
                         built = P.build_url(route, w, random.Random(seed), mode, qnames[route["func"]])
+                        w.force_inv = None
                         if built is None:
                             continue
                         url, spec = built
